@@ -406,6 +406,44 @@ band = st.one_of(
     st.integers(0, 164).map(lambda a: (10 * a, 10 * a + 10)),
 )
 
+def _node_cases(tier):
+    zen, hei, _ = orad.table()
+    idx = list(range(len(zen)))
+    for i0 in range(0, len(idx), 8):
+        yield {"entries": idx[i0 : i0 + 8]}
+
+
+def body_table_nodes(case):
+    """EVERY entry of the shipped field-parameter table (88 zenith x height nodes), all 165 frequency bins (band 0-1650
+    MHz): an event that sits exactly on the node (and 0.4 of the way to the neighbours) has a finite field and SNR, equal
+    to the own evaluation of the parametrisation, for float64 AND float32 event arrays."""
+    zen, hei, _ = orad.table()
+    base = {"det": 525.0, "band": [0, 1650], "nants": 10, "gain": 1.8, "iono": False, "tec": 10.0, "tec_err": 0.1}
+    labels = set()
+    for e_i in case["entries"]:
+        for dz, dh in ((0.0, 0.0), (0.4, 0.0), (0.0, 0.4), (-0.4, -0.4)):
+            b_ = math.radians(min(max(90.0 - (zen[e_i] + dz), 0.2), 42.0))
+            h_ = min(max(hei[e_i] + dh, 0.0), 10.0)
+            sb = math.sin(b_)
+            ln = -RE * sb + math.sqrt((RE * sb) ** 2 + 2.0 * RE * h_ + h_ * h_)
+            ln = ln if ln > 0 else 1e-6
+            a_ = math.sqrt(RE * RE + ln * ln + 2.0 * RE * ln * sb) - RE
+            beta, alt, length = np.array([b_]), np.array([a_]), np.array([ln])
+            theta, L, E = np.array([0.02]), np.array([900.0]), np.array([1.0])
+            for dt in (np.float64, np.float32):
+                args = [x.astype(dt) for x in (beta, alt, length, theta, L, E)]
+                with cut(f"EASRadio + calculate_snr at table entry {e_i} (zenith {zen[e_i]} deg, height {hei[e_i]} km, {np.dtype(dt).name} arrays)"):
+                    F_, S_ = run_radio(base, *args, 0.37)
+                require(bool(np.all(np.isfinite(F_))) and bool(np.all(np.isfinite(S_))), f"non-finite field or SNR for an event at the table entry zenith {zen[e_i]} deg / height {hei[e_i]} km (offset {dz}, {dh}) with {np.dtype(dt).name} event arrays: bins {np.where(~np.isfinite(F_[0]))[0][:6].tolist()} (centres {[5 + 10 * int(k_) for k_ in np.where(~np.isfinite(F_[0]))[0][:6]]} MHz)")
+                if dt is np.float64:
+                    F64, S64 = F_, S_
+                else:
+                    big = np.abs(F64) >= 1e-30
+                    require(bool(np.all(np.abs(F_[big] - F64[big]) <= 2e-3 * np.abs(F64[big]))), f"float32 event arrays give other fields than float64 arrays at the table entry zenith {zen[e_i]} deg / height {hei[e_i]} km")
+        labels.add("node")
+    return labels
+
+
 def _band_sweep_cases(tier):
     for k0 in range(0, 320, 40):
         for bands in ([[30, 300], [30, 80]], [[30, 80], [200, 1200]]):
@@ -436,6 +474,15 @@ def body_band_sweep(case):
 
 
 SUBCHECKS = [
+    SubCheck(
+        "table_nodes",
+        None,
+        body_table_nodes,
+        lambda labels: "node" in labels,
+        {"quick": 1},
+        doc="exhaustive over the 88 entries of the shipped field-parameter table x 4 offsets x all 165 frequency bins: finite field and SNR for float64 and float32 event arrays, float32 == float64 to single precision",
+        exhaustive=_node_cases,
+    ),
     SubCheck(
         "band_overlap_sweep",
         None,
